@@ -413,7 +413,10 @@ class X12Reader(X12Base):
                 err_str = 'Segment contains a leading space'
                 self._seg_error('1', err_str, None, src_line=self.cur_line + 1)
                 line = line.lstrip()
-            if line != '' and line[-1] == self.ele_term:
+                if line == '':
+                    # nothing but blanks: not a segment
+                    continue
+            if line[-1] == self.ele_term:
                 err_str = 'Segment contains trailing element terminators'
                 self._seg_error('SEG1', err_str, None, src_line=self.cur_line + 1)
             seg_data = pyx12.segment.Segment(line, self.seg_term, self.ele_term, self.subele_term)
